@@ -113,6 +113,36 @@ PATTERN_POOL = ["(?<=a)b", "(?<!a)b", "(?=a)a", "(?!b).", "(?P<n>a)(?P=n)", "(?i
 EXTRA_KEYWORDS = ["self", "args", "kwargs", "cls", "element", "elements", "mode", "additional", "name", "value", "property_", "schema", "state", "title", "$id", "x-extension", "readOnly"]
 
 
+FORMAT_CHARS = ["{", "}", "{0}", "{x}", "{}", "{{", "%s", "%(a)s", "\\", "{minimum}", "{0!r}", "a{b"]
+
+
+def message_chars_ok(i):
+    """violations whose messages contain format-looking text (REAL message formatting): only validation errors"""
+    from vf.common import parse_s
+
+    c = FORMAT_CHARS[i]
+    cases = [
+        ({"required": [c]}, {}),
+        ({"properties": {c: {"type": "integer"}}, "additionalProperties": False}, {c: "x", "other": 1}),
+        ({"dependencies": {c: ["b" + c], "a": {"properties": {c: {"type": "string"}}, "required": [c]}}}, {c: 1, "a": 2}),
+        ({"dependencies": {"a": {"properties": {"b": {"type": "string"}}, "required": ["b"]}}}, {"a": 1}),
+        ({"patternProperties": {"^a": {"const": c}}, "propertyNames": {"const": c}}, {"ab": 1}),
+        ({"enum": [c, {c: c}], "const": {c: [c]}}, c + "x"),
+        ({"type": "string", "pattern": "^z", "format": "uuid"}, c),
+        ({"type": "object", "title": "T" , "properties": {c: {"type": "integer", "minimum": 5}}, "required": [c]}, {c: 1}),
+        ({"type": "object", "title": "T", "description": c, "required": ["x"]}, {c: c}),
+        ({"items": [{"const": c}], "additionalItems": False, "contains": {"const": {c: 1}}}, [c + "1", c]),
+        ({"oneOf": [{"const": c}, {"enum": [c]}], "anyOf": [{"required": [c]}], "not": {"const": c}}, c),
+        ({"oneOf": [{"const": c}, {"enum": [c]}]}, c),
+    ]
+    for S, v in cases:
+        if not parse_total(S):
+            return False
+        if not total(parse_s(S), v):
+            return False
+    return True
+
+
 NAME_POOL = ["", "\x00", "\x01", "\x7f", "\x85", "\ue000", "\uffff", "\u0378", "\ud800", "a\x00b", " ", "\t", "\xa0", "\U0001d518", "\U0010ffff", "$", "-", "_", "1", "\u00b2", "class", "__dict__", "a b", "\u2028", "\u200d"]
 
 
@@ -233,6 +263,8 @@ def harnesses(ctx) -> List[H]:
     hs.append(mk("c10_bigint_messages", "n: int, neg: bool", ["4290 <= n <= 4310"] + ctx.excl("C10-int-str-limit", "n < 4300"),
                  'x = 10 ** concretize_int(n, 4290, 4310)\nx = -x if neg else x\nreturn total(parse_s({"maximum": 1, "minimum": -1}), x) and total(parse_s({"enum": [1]}), [x]) and total(parse_s({"type": "object", "title": "T", "properties": {"a": {"const": 0}}}), {"a": x})',
                  timeout=200, group="numbers", message_stub=False, covers="integers around the 4300-digit int->str limit with REAL message formatting"))
+    hs.append(mk("c10_message_format_chars", "i: int", [f"0 <= i < {len(FORMAT_CHARS)}"], f"return message_chars_ok(concretize_int(i, 0, {len(FORMAT_CHARS) - 1}))", timeout=200, group="messages",
+                 message_stub=False, covers="names / literals / sub-schema reprs containing braces, percent signs and backslashes in REAL (un-stubbed) error messages of every rejecting keyword"))
     hs.append(mk("c10_parse_name_pool", "i: int, typed: bool", [f"0 <= i < {len(NAME_POOL)}"],
                  'a, b = NAME_POOL[i], NAME_POOL[(7 * i + 3) % len(NAME_POOL)]\nS = {"properties": {a: {"type": "integer"}, b: True}, "required": [b, a + b], "dependencies": {a: [b]}, "default": {a: b}, "enum": [{a: [b]}]}\nif typed: S.update({"type": "object", "title": "T" + a})\nreturn parse_total(S) and doc_total(S) and total(parse_s(S) if parse_ok(S) else parse_s(True), {a: 1, b: a})',
                  timeout=300, group="parse", covers="property / required / dependency names from a pool of unusual strings (unnamed code points, controls, private use, surrogates, non-BMP, empty)"))
